@@ -75,6 +75,29 @@ def digest(x) -> str:
     return hashlib.sha1(json.dumps(jsonable(x), sort_keys=True).encode()).hexdigest()[:12]
 
 
+class ShardSaturated(Exception):
+    """Raised inside a shard once it has recorded SATURATION violations that are not known findings: the
+    shard stops and returns what it has (a grossly broken tree must not turn a 20 s check into hours)."""
+
+    def __init__(self, result):
+        super().__init__('saturated')
+        self.result = result
+
+
+SATURATION = 400
+_KNOWN_KINDS = None
+
+
+def known_kinds():
+    global _KNOWN_KINDS
+    if _KNOWN_KINDS is None:
+        try:
+            _KNOWN_KINDS = {f['kind'] for f in load_findings().get('open', [])}
+        except Exception:  # noqa: BLE001
+            _KNOWN_KINDS = set()
+    return _KNOWN_KINDS
+
+
 class Result:
     """What a shard (or a whole run) covered."""
 
@@ -93,9 +116,14 @@ class Result:
     def violation(self, kind: str, case, detail: str = ''):
         self.n_viols += 1
         self.viol_kinds[kind] += 1
+        if kind not in known_kinds():
+            self.n_unknown = getattr(self, 'n_unknown', 0) + 1
         # keep the first (simplest-first order) cases of every kind
         if sum(1 for v in self.viols if v['kind'] == kind) < 3 and len(self.viols) < MAX_VIOLS_KEPT * 4:
             self.viols.append({'kind': kind, 'case': jsonable(case), 'detail': detail[:2000]})
+        if getattr(self, 'n_unknown', 0) >= SATURATION and not getattr(self, 'no_saturation', False):
+            self.stats['shards_stopped_after_%d_violations' % SATURATION] += 1
+            raise ShardSaturated(self)
 
     def outcome(self, key):
         if len(self.outcomes) < MAX_OUTCOMES:
@@ -137,6 +165,8 @@ def _call_shard(args):
     mod = importlib.import_module(modname)
     try:
         return ('ok', mod.run_shard(shard))
+    except ShardSaturated as e:
+        return ('ok', e.result)
     except HarnessError as e:
         return ('harness', f'{e}\n{traceback.format_exc()}')
     except Exception as e:  # a crash of the *harness* code path, not of gemdat (checks catch those)
@@ -194,8 +224,14 @@ def run_check(mod, tier: str, seed: int, jobs: int, cap_s: float | None = None) 
 
     # determinism: the first shard of the canonical order is recomputed and must agree exactly
     if getattr(mod, 'DETERMINISM_RECHECK', True):
-        a = mod.run_shard(shards[0])
-        b = mod.run_shard(shards[0])
+        def _safe(sh):
+            try:
+                return mod.run_shard(sh)
+            except ShardSaturated as e:
+                return e.result
+
+        a = _safe(shards[0])
+        b = _safe(shards[0])
         if (a.evals, sorted(map(str, a.outcomes)), a.n_viols) != (b.evals, sorted(map(str, b.outcomes)), b.n_viols):
             if total.n_viols == 0:
                 raise HarnessError('non-deterministic shard: two executions of shard 0 differ')
